@@ -3,6 +3,7 @@
 package main
 
 import (
+	"os/exec"
 	"github.com/edutko/decipher/internal/file"
 	"fmt"
 	"net"
@@ -125,12 +126,21 @@ func hasKind(n *node, kind string) bool {
 
 // unprivilegedRunPossible: can the harness start the binary as uid 65534 (needs CAP_SETUID)?
 func unprivilegedRunPossible() bool {
+	if unprivKnown {
+		return unprivOK
+	}
+	unprivKnown = true
 	if os.Getuid() != 0 {
 		return false
 	}
-	r := runCLIAs(65534, "/", []string{"--version"}, nil, nil, 10*time.Second)
-	return r.exit == 0 && !r.timedOut
+	cmd := exec.Command(binPath("decipher"), "--version")
+	cmd.Dir = "/"
+	cmd.SysProcAttr = &syscall.SysProcAttr{Credential: &syscall.Credential{Uid: 65534, Gid: 65534}}
+	unprivOK = cmd.Run() == nil
+	return unprivOK
 }
+
+var unprivKnown, unprivOK bool
 
 func must(err error) {
 	if err != nil {
@@ -219,6 +229,11 @@ func runTree(a []string) (string, [][2]string) {
 		}
 	}
 	if uid != 0 {
+		if !unprivilegedRunPossible() {
+			// no way to run the binary as another user here (not root, or the binary lies below a directory others cannot
+			// enter): the case is not evaluated rather than evaluated as root, for whom mode 000 means nothing
+			return "unavailable", nil
+		}
 		for _, d := range []string{os.TempDir(), root} {
 			_ = os.Chmod(d, 0o755)
 		}
